@@ -247,6 +247,8 @@ def run(R, tier):
     # ---- R02.9 lexer typestate between units -----------------------------------------------------------------------
     from . import lexer as LX
     LX.check_unit_separator_typestate(R, "R02.9")
+    # header mnemonics of every legal length (up to 12 characters, `*` included) reach the tree as one element
+    LX.check_elements(R, "R02.9", ("mnemonic",))
     R.trust("IEEE 488.2 7.6 / SCPI-99 6.2.4 compound header rules as encoded in the expected tables of sa/rules/c02.py")
 
 
